@@ -36,12 +36,14 @@ func compareWalkers(pj *simdjson.ParsedJson, ex *expect, withMarshal bool) (what
 	if got := renderDocs(docs, renderExact); got != ex.exact {
 		return fmt.Sprintf("exposed %s, document is %s", clip(got), clip(ex.exact)), "AdvanceInto flat walk"
 	}
-	docs, err = walkInterface(pj)
-	if err != nil {
-		return err.Error(), "Iter.Interface"
-	}
-	if got := renderDocs(docs, renderSorted); got != ex.sorted {
-		return fmt.Sprintf("exposed %s, document is %s", clip(got), clip(ex.sorted)), "Iter.Interface"
+	if tapeDepth(pj) <= 3000 { // Interface() needs memory quadratic in the nesting depth
+		docs, err = walkInterface(pj)
+		if err != nil {
+			return err.Error(), "Iter.Interface"
+		}
+		if got := renderDocs(docs, renderSorted); got != ex.sorted {
+			return fmt.Sprintf("exposed %s, document is %s", clip(got), clip(ex.sorted)), "Iter.Interface"
+		}
 	}
 	if withMarshal {
 		if what := checkMarshalRoot(pj, ex); what != "" {
